@@ -145,13 +145,13 @@ def ruleSpec (inp : Array Nat) : Nat → Atom → Nat → Nat → List Pair → 
 
 /-- built-in rules are specified by their result; grammar rules by `ruleSpec` -/
 def spec (inp : Array Nat) : Spec := fun n at_ p p' ks =>
-  if isBuiltin n then builtin inp n at_ p = some (p', ks) else ruleSpec inp n at_ p p' ks
+  if isBuiltinRule n then builtin inp n at_ p = some (p', ks) else ruleSpec inp n at_ p p' ks
 
-theorem spec_builtin (inp : Array Nat) {n : Nat} (h : isBuiltin n) (at_ : Atom) (p p' : Nat) (ks : List Pair) :
+theorem spec_builtin (inp : Array Nat) {n : Nat} (h : isBuiltinRule n) (at_ : Atom) (p p' : Nat) (ks : List Pair) :
     spec inp n at_ p p' ks = (builtin inp n at_ p = some (p', ks)) := if_pos h
 
 theorem spec_rule (inp : Array Nat) {n : Nat} (h : n < 51) (at_ : Atom) (p p' : Nat) (ks : List Pair) :
-    spec inp n at_ p p' ks = ruleSpec inp n at_ p p' ks := if_neg (by unfold isBuiltin; omega)
+    spec inp n at_ p p' ks = ruleSpec inp n at_ p p' ks := if_neg (by unfold isBuiltinRule; omega)
 
 theorem ty_0 : (ruleOf 0).ty = .silent := rfl
 theorem body_0 : (ruleOf 0).body = (.seq (.seq (.ref 1000) (.ref 1)) (.ref 1001)) := rfl
